@@ -347,8 +347,9 @@ func (cf *c10Conf) framesSafe() bool {
 		n := l - off
 		if pl.CL > 0 {
 			n = min(n, pl.CL)
-		} else if n > 1000 {
-			return false
+		}
+		if n > 900 {
+			return false // the packet size may cut the slice at a point this estimate does not know
 		}
 		if n < 64 || n+pad > 1100 {
 			return false
@@ -901,7 +902,7 @@ func c10Check(r *c10Report, cf *c10Conf, cap *specgen.DialCapture, store *specge
 		case cap.Err == nil:
 			r.count("live_handshakes_completed", 1)
 		case liveOK:
-			r.bad("C10|live|handshake-failed|"+builder, "the in-tree server did not complete the handshake: %v", cap.Err)
+			r.bad("C10|live|handshake-failed|"+c10ErrClass(cap.Err)+"|"+builder, "the in-tree server did not complete the handshake: %v", cap.Err)
 		default:
 			r.count("live_failures_in_open_configurations", 1)
 		}
@@ -1015,7 +1016,7 @@ func c10Datagram(r *c10Report, cf *c10Conf, g *c10Dgram, pl c10Plan, helloLen in
 	where := fmt.Sprintf("dgram=%d", min(g.j, 2))
 
 	// ---- the frames the builder is documented to produce, and their total length b
-	b := -1          // builder payload length (without exact-size padding); -1 unknown
+	b := -1           // builder payload length (without exact-size padding); -1 unknown
 	explicit := false // the size of the payload follows from explicit spec entries
 	switch cf.Builder {
 	case "nil", "empty":
@@ -1297,13 +1298,13 @@ func c10SameTypes(a, b []uint64) bool {
 // the configuration space
 
 var (
-	c10DCIDs  = []int{0, 1, 7, 8, 9, 15, 20}
-	c10SCIDs  = []int{0, 1, 3, 8, 20}
-	c10PNs    = []uint64{0, 1, 2, 255, 256, 65535, 1<<32 - 1, 1<<62 - 2, 1<<62 - 1, 1 << 62, 1<<64 - 1}
-	c10PNLens = [][]int{nil, {1}, {2}, {3}, {4}, {1, 2}, {2, 1}, {4, 1, 2}, {1, 1, 1, 3}, {3, 4}}
-	c10IPSs   = []int{0, 1200, 1252, 1280, 1452}
-	c10UDPs   = []int{0, 1200, 1357, 1452}
-	c10Plans  = [][]c10Plan{nil, {{0, 1200}}, {{0, 1250}}, {{100, 1200}, {0, 1250}}, {{999, 1200}, {0, 1200}}, {{150, 0}}, {{150, 0}, {40, 1210}, {0, 0}}, {{0, 300}}, {{0, 1400}}, {{5000, 0}}, {{600, 1232}, {0, 1232}}}
+	c10DCIDs   = []int{0, 1, 7, 8, 9, 15, 20}
+	c10SCIDs   = []int{0, 1, 3, 8, 20}
+	c10PNs     = []uint64{0, 1, 2, 255, 256, 65535, 1<<32 - 1, 1<<62 - 2, 1<<62 - 1, 1 << 62, 1<<64 - 1}
+	c10PNLens  = [][]int{nil, {1}, {2}, {3}, {4}, {1, 2}, {2, 1}, {4, 1, 2}, {1, 1, 1, 3}, {3, 4}}
+	c10IPSs    = []int{0, 1200, 1252, 1280, 1452}
+	c10UDPs    = []int{0, 1200, 1357, 1452}
+	c10Plans   = [][]c10Plan{nil, {{0, 1200}}, {{0, 1250}}, {{100, 1200}, {0, 1250}}, {{999, 1200}, {0, 1200}}, {{150, 0}}, {{150, 0}, {40, 1210}, {0, 0}}, {{0, 300}}, {{0, 1400}}, {{5000, 0}}, {{600, 1232}, {0, 1232}}}
 	c10Layouts = [][]c10Frame{
 		{{K: "c", A: 0, B: 0}},
 		{{K: "p"}, {K: "c", A: 0, B: 0}},
@@ -1358,7 +1359,7 @@ func c10Configs(l *evlog.Log) []c10Conf {
 	add := func(c c10Conf) { out = append(out, c) }
 	// ---- the built-in fingerprints, dead and live server
 	for _, id := range quicworld.QUICIDNames {
-		for rep := 0; rep < l.Pick(4, 40); rep++ {
+		for rep := 0; rep < l.Pick(4, 100); rep++ {
 			c := c10Default(fmt.Sprintf("quicid/%s/%d", id, rep))
 			c.QUICID = id
 			c.Live = rep%2 == 1
@@ -1509,7 +1510,7 @@ func c10Configs(l *evlog.Log) []c10Conf {
 	// ---- seeded product
 	rng := l.Rand("c10product")
 	pick := func(n int) int { return rng.IntN(n) }
-	for i := 0; i < l.Pick(700, 30000); i++ {
+	for i := 0; i < l.Pick(1000, 100000); i++ {
 		c := c10Default(fmt.Sprintf("product/%05d", i))
 		c.DCID, c.SCID = c10DCIDs[pick(len(c10DCIDs))], c10SCIDs[pick(len(c10SCIDs))]
 		if pick(3) > 0 {
